@@ -405,6 +405,18 @@ fn spec_qp_wellformed(qp: &QuantizedParameters) {
     }
 }
 
+/// Field-wise identical copy with the (asserted equal) concrete order, see
+/// `residual_with_concrete_shape`.
+fn qp_with_concrete_order(qp: QuantizedParameters, order: usize) -> QuantizedParameters {
+    assert!(qp.order == order);
+    QuantizedParameters {
+        coefs: qp.coefs,
+        order,
+        shift: qp.shift,
+        precision: qp.precision,
+    }
+}
+
 /// One call of `QuantizedParameters::new` with a concrete (number of coefficients, order) and
 /// symbolic coefficients / shift / precision: returns; Ok ==> verifies, is well-formed, and
 /// reports the arguments.
@@ -414,9 +426,10 @@ fn qp_new<const NC: usize>(order: usize) -> bool {
     let precision: usize = kani::any();
     match QuantizedParameters::new(&coefs, order, shift, precision) {
         Ok(qp) => {
-            assert!(qp.verify().is_ok());
             assert!(order == NC);
             assert!(qp.order() == order && qp.shift() == shift && qp.precision() == precision);
+            let qp = qp_with_concrete_order(qp, NC);
+            assert!(qp.verify().is_ok());
             spec_qp_wellformed(&qp);
             let mut j = 0;
             while j < NC {
@@ -620,7 +633,6 @@ fn fixed_lpc_new<const NW: usize>(rw: usize) -> bool {
     };
     match FixedLpc::new(&warm, res, bps) {
         Ok(c) => {
-            assert!(c.verify().is_ok());
             assert!(NW <= 4 && c.order() == NW && spec_bps(bps) && c.bits_per_sample() == bps);
             assert!(c.residual().warmup_length() == NW);
             let mut i = 0;
@@ -633,6 +645,7 @@ fn fixed_lpc_new<const NW: usize>(rw: usize) -> bool {
                 residual: residual_with_concrete_shape(c.residual, 0, 3, rw),
                 bits_per_sample: c.bits_per_sample,
             };
+            assert!(c.verify().is_ok());
             let s = serialises(&c);
             assert!(field(&s, 0, 8) == (0x10 | (NW << 1)) as u64);
             true
@@ -678,32 +691,28 @@ fn lpc_new<const NW: usize, const NC: usize>(rw: usize) -> bool {
     let Ok(qp) = QuantizedParameters::new(&coefs, NC, kani::any(), kani::any()) else {
         return false;
     };
+    let qp = qp_with_concrete_order(qp, NC);
     let Some(res) = any_public_residual(rw) else {
         return false;
     };
     match Lpc::new(&warm, qp, res, bps) {
         Ok(c) => {
-            assert!(c.verify().is_ok());
             assert!(1 <= NC && NC == NW && c.order() == NC);
             assert!(spec_bps(bps) && c.bits_per_sample() == bps);
             assert!(c.residual().warmup_length() == NC);
-            spec_qp_wellformed(c.parameters());
             let mut i = 0;
             while i < NW {
                 assert!(spec_fits(warm[i] as i64, bps) && c.warm_up()[i] == warm[i]);
                 i += 1;
             }
             let c = Lpc {
-                parameters: QuantizedParameters {
-                    coefs: c.parameters.coefs,
-                    order: NC,
-                    shift: c.parameters.shift,
-                    precision: c.parameters.precision,
-                },
+                parameters: qp_with_concrete_order(c.parameters, NC),
                 warm_up: c.warm_up,
                 residual: residual_with_concrete_shape(c.residual, 0, 3, rw),
                 bits_per_sample: c.bits_per_sample,
             };
+            assert!(c.verify().is_ok());
+            spec_qp_wellformed(c.parameters());
             let s = serialises(&c);
             assert!(field(&s, 0, 8) == (0x40 | ((NC - 1) << 1)) as u64);
             true
